@@ -134,6 +134,8 @@ type Kernel struct {
 	StripPrefix string
 	// MaxEvents caps the number of decisions (watchdog against livelock).
 	MaxEvents int
+	// StopWhenIdle makes Run return "idle" at the first quiescent point at which no goroutine is parked.
+	StopWhenIdle bool
 }
 
 type seqAction struct {
@@ -317,6 +319,20 @@ func NoteYield(site string) {
 	windows.Store(g, (cur|set)&^clear)
 }
 
+// anyWorkWindowOpen: some goroutine is between a tick and the end of the unit of work it started (it may
+// be parked, running, or asleep in a simulated latency).
+func anyWorkWindowOpen() bool {
+	open := false
+	windows.Range(func(_, v any) bool {
+		if v.(Flags)&(FUpdate|FMeasureRpm|FSensorMon) != 0 {
+			open = true
+			return false
+		}
+		return true
+	})
+	return open
+}
+
 // ResetWindows forgets all activity windows (a new world starts).
 func ResetWindows() { windows.Clear() }
 
@@ -455,6 +471,11 @@ func (k *Kernel) Run(until time.Duration) string {
 		}
 		if k.seq >= k.MaxEvents {
 			return "maxevents"
+		}
+		if k.StopWhenIdle && len(k.parked) == 0 && !anyWorkWindowOpen() {
+			// nobody is inside a unit of work: every loop waits in its select with nothing pending
+			k.Stats.VirtualTime = k.Now()
+			return "idle"
 		}
 		// environment actions bound to this decision index / condition
 		if acts, ok := k.seqActions[k.seq]; ok {
